@@ -63,6 +63,13 @@ def finish(mod, pid, tier, seed, results, wall, extra_cov=None, level=None):
         if k["id"] not in seen_known:
             seen_known.add(k["id"])
             lines.append("KNOWN-FINDING: property=%s %s" % (pid, k["what"]))
+    # show one violation of every distinct (space, kind) first
+    seen_k, first, rest = set(), [], []
+    for f in viol:
+        k = (f.get("space"), f.get("kind"))
+        (rest if k in seen_k else first).append(f)
+        seen_k.add(k)
+    viol = first + rest
     for i, f in enumerate(viol[:10]):
         p = write_replay(pid, tier, f["variant"], f, i)
         print("  violation: [%s/%s] %s: %s\n     case=%s" % (f["variant"], f["space"], f["kind"], f["msg"][:300], f["case"][:300] if f.get("case") else None))
